@@ -502,6 +502,25 @@ func (r *lifeRun) step1(op LOp) error {
 			if !r.waitBlocked() {
 				return fmt.Errorf("the loop is not waiting in Accept")
 			}
+			if r.facts["cancel"]%2 == 1 {
+				// a client that arrives after the serving context was cancelled, while the listener is still up: it is
+				// accepted like any other (and hung up on, its context being dead) - and accounted for like any other
+				late := r.fake.Connect()
+				lc := &lifeConn{c: late, id: r.nextID}
+				r.nextID++
+				r.facts["connect-after-cancel"]++
+				err := r.expectEOF(lc, "it was accepted under a serving context that is already cancelled")
+				late.Close()
+				if err != nil {
+					return err
+				}
+				if err := r.waitActive(0); err != nil {
+					return fmt.Errorf("after a connection that arrived once the serving context was cancelled: %v", err)
+				}
+				if !r.waitBlocked() {
+					return fmt.Errorf("after a connection that arrived once the serving context was cancelled the loop did not return to Accept")
+				}
+			}
 			r.shutdown()
 			r.serving, r.draining, r.wantNil = false, true, true
 		}
